@@ -618,6 +618,36 @@ func renderRunOne(b *BatchResult, prop string, seed, run uint64, nRandom int) {
 			b.addStats(st, nontriv)
 			report(&w2, s, mm, st)
 		}
+		// a twin: the same model under the other schema version - a JSON text of
+		// exactly the same length and shape whose DSL differs in one line - through
+		// the JSON string API right after the model itself (whatever is keyed by
+		// less than the whole content of the JSON text answers with the wrong DSL)
+		if poison == "" {
+			twin := m.clone()
+			if twin.Schema == "1.1" {
+				twin.Schema = "1.2"
+			} else {
+				twin.Schema = "1.1"
+			}
+			w4 := *wl
+			w4.Variant = "json-keys"
+			w4.Model = twin
+			w4.KeySeed = r.next()
+			c4 := newRenderCtx(&w4)
+			w5 := *wl
+			w5.Variant = "json-keys"
+			w5.KeySeed = w4.KeySeed
+			c5 := *c
+			c5.wl = &w5
+			s := fam[r.intn(len(fam))]
+			mm, st, _ := c5.check(s.cfg)
+			b.addStats(st, nontriv)
+			report(&w5, s, mm, st)
+			mm, st, _ = c4.check(s.cfg)
+			b.addStats(st, nontriv)
+			report(&w4, s, mm, st)
+			b.Probes["same_length_json_twins"]++
+		}
 		// order of the type definitions (modular models)
 		if c.isModular {
 			for i := 0; i < 2; i++ {
